@@ -314,6 +314,8 @@ package ast
 //@   requires [node] OptOK(r) && IsExpr(expr) && TreeWF()
 //@   modifies OptMaps
 //@   ensures [wf C09 C13] IsExpr(res) && TreeWF() && OptOK(r)
+// only rules that refer to no other rule are inlined (this is also why the rewriting terminates)
+//@   before cloneExpr assert [leaf-only C09 C13] !has(r.ruleUsesRules, ruleRef.Name.Val)
 //@   safety C13
 
 // The optimize visitor. Its slice surgery on aliased backing arrays is outside the value model of
